@@ -362,7 +362,33 @@ func (fr *Frame) onSend(in *ssa.Send, ch Term, x Val) {
 	fr.panicAt(in.Pos(), "send-on-closed-channel", Select(cc0, ch, SBool))
 }
 
+// channelsMayHaveClosed: waiting on a channel lets every other goroutine run, and any of them may close channels
+// this code does not control (a context being cancelled, a peer going away): before a receive or select the closed
+// state of channels is forgotten monotonically (closed stays closed) - unless a held monitor protects it.
+func (fr *Frame) channelsMayHaveClosed() {
+	r := fr.R
+	protects := func(m *Monitor) bool {
+		for _, comp := range r.protectedComps(fr, m) {
+			if comp == chanClosedComp {
+				return true
+			}
+		}
+		return false
+	}
+	if m := r.monitor; m != nil && fr.st.held[m.Name] && protects(m) {
+		return
+	}
+	for _, h := range fr.st.locks {
+		if protects(h.m) {
+			return
+		}
+	}
+	r.Heap.register(chanClosedComp, ArraySort(SInt, SBool))
+	r.Heap.Havoc(fr.st, chanClosedComp)
+}
+
 func (fr *Frame) onRecv(in *ssa.UnOp, ch Term) Val {
+	fr.channelsMayHaveClosed()
 	elem := types.Unalias(in.X.Type()).Underlying().(*types.Chan).Elem()
 	if fr.isCloseOnly(in.X) {
 		cc0 := fr.R.Heap.Get(fr.st, chanClosedComp, ArraySort(SInt, SBool))
@@ -377,6 +403,9 @@ func (fr *Frame) onRecv(in *ssa.UnOp, ch Term) Val {
 }
 
 func (fr *Frame) execSelect(in *ssa.Select) {
+	if in.Blocking {
+		fr.channelsMayHaveClosed()
+	}
 	sc := fr.R.Sc
 	idx := sc.FreshConst("sel", SInt)
 	lo := int64(0)
